@@ -69,7 +69,7 @@ def run(ctx):
               what_of=lambda tr, l, c: "the %s result reports happiness %s for the share map %s; TLC clause %s" % (
                   tr["consts"]["site"], tr["events"][l - 1]["got"], json.dumps(tr["consts"]["adj"]), c))
     # the call site "used for upload decisions": the Encoder re-evaluates the value at every loss of a share writer
-    lconsts = dict(NSrv=3, NSh=3, Canon="TRUE", MaxSeq=3, Maximal="TRUE") if q else dict(NSrv=3, NSh=3, Canon="FALSE", MaxSeq=3, Maximal="FALSE")
+    lconsts = dict(NSrv=3, NSh=3, Canon="TRUE", MaxSeq=3, Maximal="TRUE") if q else dict(NSrv=3, NSh=3, Canon="TRUE", MaxSeq=3, Maximal="FALSE")
     ctx.constants["GenEncoderLoss"] = lconsts
     lcfg = "SPECIFICATION Spec\nCONSTANTS\n" + "".join("  %s = %s\n" % kv for kv in lconsts.items()) + \
            "INVARIANT C08_TableIsMatching\nINVARIANT C08_LossMonotone\nINVARIANT C08_DoomMeaning\nCHECK_DEADLOCK FALSE\n"
